@@ -373,12 +373,14 @@ def main(argv):
     if cfg.get("jph", True):
         n = None
         jt = tier
+        extra = None
         if broken:
-            jt = "thorough" if cfg.get("search_thorough", True) else tier  # search with the larger budget
-            n = cfg.get("search_n")
+            # search for a concrete failing input with a larger budget: 4x the tier's case count
+            # (the full thorough enumeration when the tier is thorough)
+            extra = ["-mult", str(cfg.get("search_mult", 4))] if tier == "quick" else None
         if not drivers_ok:
             print("infrastructure: Lean drivers do not build; cannot run the correspondence")
-        t3, txt = run_jph(prop, jt, seed, cfg, n=n)
+        t3, txt = run_jph(prop, jt, seed, cfg, n=n, extra_args=extra)
         if t3 is None:
             print("infrastructure: harness run failed:\n" + txt[-3000:])
             return 2
